@@ -26,6 +26,12 @@ import (
 //go:linkname runtimeVerifRandSeed runtime.verifRandSeed
 func runtimeVerifRandSeed(s uint64)
 
+// Goid is the identity of the calling goroutine (runtime overlay accessor): scenarios use it to tie what a
+// callback sees to the harness call that is being executed on the same goroutine.
+//
+//go:linkname Goid runtime.verifGoid
+func Goid() uint64
+
 //go:linkname randSetTestingReader crypto/internal/rand.SetTestingReader
 func randSetTestingReader(r io.Reader)
 
